@@ -59,6 +59,13 @@ def encode(n_m, n_a, wav_asc, rng):
     return v * 10.0 ** rng.uniform(-3, 3)
 
 
+def reversal(a, b, rtol=1e-13):
+    """b is a with the last axis reversed (to rounding: the other order may be derived rather than flipped)"""
+    a = np.asarray(a, float)[..., ::-1]
+    b = np.asarray(b, float)
+    return a.shape == b.shape and bool(np.all(np.abs(a - b) <= rtol * np.abs(a)))
+
+
 def lookup(wav_asc, table_asc, wav_got):
     """for each returned wavelength, the stored column index (by value)"""
     idx = []
@@ -80,9 +87,9 @@ def run(ctx):
                 'values; cell-wise comparison by wavelength value. a case = one write+read; non-trivial = n_wav>=2 (SED/cube) or n_models>=2 (convolved)')
     ctx.assume('SED files materialise a single dummy aperture when none is set (by design): values are compared, not the dummy',
                'values compared with rtol 1e-12 (erg/s goes through /d^2 * d^2)', 'float64 arrays (what the objects hold) are stored as float64')
-    ctx.require_events('SED.read:post', 'SEDCube.read:post', 'roundtrip:sed', 'roundtrip:cube', 'roundtrip:convolved', 'cube:get_sed', 'roundtrip:sed-object-reused')
+    ctx.require_events('SED.read:post', 'SEDCube.read:post', 'roundtrip:sed', 'roundtrip:cube', 'roundtrip:convolved', 'cube:get_sed', 'roundtrip:sed-object-reused', 'roundtrip:cube-object-reused', 'roundtrip:sed-other-unit')
     ctx.require_regimes('sed:asc', 'sed:desc', 'cube:asc', 'cube:desc', 'cube:no-unc', 'cube:no-apertures', 'cube:memmap',
-                        'convolved:no-apertures', 'unit:erg/s', 'unit:Jy')
+                        'convolved:no-apertures', 'unit:erg/s', 'unit:Jy', 'cube:valid-flags', 'cube:axis-unit:nm', 'cube:axis-unit:GHz', 'cube:axis-unit:mm')
     cfg = list(itertools.product(['asc', 'desc'], ['nu', 'wav'], list(FLUX_UNITS), [True, False], [True, False], [True, False]))
     reps = 1 if ctx.quick else 20
     d = ctx.newdir('c12')
@@ -151,10 +158,28 @@ def run(ctx):
                         # the other order is the exact reversal of everything together
                         other = 'wav' if order == 'nu' else 'nu'
                         r2 = SED.read(path, unit_flux=funit, order=other)
-                        same = all(probe.same(np.asarray(getattr(r, k).value)[..., ::-1], np.asarray(getattr(r2, k).value))
-                                   for k in ('wav', 'nu', 'flux', 'error'))
+                        same = all(reversal(getattr(r, k).value, getattr(r2, k).to(getattr(r, k).unit).value) for k in ('wav', 'nu', 'flux', 'error'))
                         if not same:
                             ctx.violation('sed:other-order-not-reversal', 'requesting the other order is not the reversal of wav, nu, flux, error together', wit0)
+                        # the same cells requested in a brightness unit of another kind (per frequency <-> integrated <-> luminosity):
+                        # every cell must be converted with its own frequency, in either order
+                        from .c15 import to_base, from_base
+                        fu2 = str(rng.choice([x for x in FLUX_UNITS if x != fu]))
+                        d_cm = float(s.distance.to(u.cm).value)
+                        for od in ('nu', 'wav'):
+                            r3 = SED.read(path, unit_flux=FLUX_UNITS[fu2], order=od)
+                            w3 = np.asarray(r3.wav.to(u.micron).value, float)
+                            i3 = lookup(wav_asc, None, w3)
+                            ctx.event('roundtrip:sed-other-unit')
+                            if i3 is None:
+                                ctx.violation('sed:wavelengths-changed', 'wavelengths read back are not the ones stored', dict(wit0, got=w3, read_unit=fu2))
+                                continue
+                            nu_cell = C_UM_HZ / wav_asc[i3]
+                            exp3 = from_base(fu2, to_base(fu, val[0][:, i3], nu_cell[None, :], d_cm), nu_cell[None, :], d_cm)
+                            g3 = np.asarray(r3.flux.to(FLUX_UNITS[fu2]).value, float)
+                            if g3.shape != exp3.shape or not O.close(g3, exp3, 1e-9):
+                                ctx.violation('sed:cells-relabelled:other-unit', 'read in another brightness unit, a value is not the stored one for that (aperture, wavelength)',
+                                              dict(wit0, kind='sed', read_unit=fu2, read_order=od, got_first_ap=g3[0] if g3.ndim == 2 else g3, expected_first_ap=exp3[0]))
                     ctx.case(('sed', ic, ctx.shard), nontrivial=True, sample=dict(wit0, kind='sed') if ic < 40 else None)
                     os.remove(path)
 
@@ -206,15 +231,28 @@ def run(ctx):
             c = SEDCube()
             c.names = np.array(rng.permutation(['m%d' % (i * 7 + 1) for i in range(n_m)]))      # not in lexical order
             c.distance = float(gen.loguniform(rng, 0.1, 30.0)) * u.kpc
-            if rng.random() < 0.5:
+            sp = int(rng.integers(5))      # how the spectral axis is supplied
+            if sp == 0:
                 c.wav = wav_in * u.micron
-            else:
+            elif sp == 1:
+                c.wav = (wav_in * u.micron).to(u.nm)
+            elif sp == 2:
+                c.wav = (wav_in * u.micron).to(u.mm)
+            elif sp == 3:
                 c.nu = (C_UM_HZ / wav_in) * u.Hz
+            else:
+                c.nu = ((C_UM_HZ / wav_in) * u.Hz).to(u.GHz)
+            ctx.regime('cube:axis-unit:' + ('micron', 'nm', 'mm', 'Hz', 'GHz')[sp])
             if with_ap:
                 c.apertures = (aps * u.au).to(apu)
             c.val = val[:, :, sl] * funit
             if with_unc:
                 c.unc = unc[:, :, sl] * funit
+            valid_in = None
+            if n_m >= 2 and rng.random() < 0.5:
+                valid_in = rng.random(n_m) < 0.6
+                c.valid = valid_in
+                ctx.regime('cube:valid-flags')
             path = os.path.join(d, 'cube_%d.fits' % ic)
             ok = True
             try:
@@ -253,11 +291,15 @@ def run(ctx):
                         ctx.violation('cube:apertures-appeared', 'absent apertures did not stay absent', wit0)
                     if list(r.names) != list(c.names):
                         ctx.violation('cube:names', 'model names changed', dict(wit0, got=list(r.names)))
+                    if abs(r.distance.to(u.kpc).value / c.distance.to(u.kpc).value - 1) > 1e-12:
+                        ctx.violation('cube:distance', 'distance changed', dict(wit0, got=str(r.distance)))
+                    if valid_in is not None and list(np.asarray(r.valid, bool)) != list(valid_in):
+                        ctx.violation('cube:valid-flags', 'per-model validity flags read back differ from the ones stored', dict(wit0, stored=valid_in, got=r.valid))
                     other = 'wav' if order == 'nu' else 'nu'
                     r2 = SEDCube.read(path, order=other, memmap=memmap)
-                    same = probe.same(np.asarray(r.wav.value)[::-1], r2.wav.value) and probe.same(np.asarray(r.nu.value)[::-1], r2.nu.value) and \
-                        probe.same(np.asarray(r.val.value)[..., ::-1], r2.val.value) and \
-                        (r.unc is None) == (r2.unc is None) and (r.unc is None or probe.same(np.asarray(r.unc.value)[..., ::-1], r2.unc.value))
+                    same = reversal(r.wav.value, r2.wav.to(r.wav.unit).value) and reversal(r.nu.value, r2.nu.to(r.nu.unit).value) and \
+                        reversal(r.val.value, r2.val.to(r.val.unit).value) and \
+                        (r.unc is None) == (r2.unc is None) and (r.unc is None or reversal(r.unc.value, r2.unc.to(r.unc.unit).value))
                     if not same:
                         ctx.violation('cube:other-order-not-reversal', 'requesting the other order is not the reversal of the spectral axis only', wit0)
                     # extraction of one model
@@ -267,8 +309,12 @@ def run(ctx):
                         ctx.event('cube:get_sed')
                         gf = np.asarray(s1.flux.to(funit).value, float)
                         sw = np.asarray(s1.wav.to(u.micron).value, float)
-                        if not probe.same(sw, got_w) or not O.close(gf, val[mi][:, idx], 1e-12) or s1.name != str(c.names[mi]):
+                        if sw.shape != got_w.shape or not O.close(sw, got_w, 1e-13) or not O.close(gf, val[mi][:, idx], 1e-12) or s1.name != str(c.names[mi]):
                             ctx.violation('cube:get_sed-wrong-slice', 'extracting one model does not give the SED that was put in', dict(wit0, model=mi))
+                        if s1.distance is None or abs(s1.distance.to(u.kpc).value / c.distance.to(u.kpc).value - 1) > 1e-12:
+                            ctx.violation('cube:get_sed-distance', 'the extracted SED does not carry the distance the cube was stored with', dict(wit0, model=mi, got=str(s1.distance)))
+                        if with_ap and (s1.apertures is None or not O.close(s1.apertures.to(u.au).value, aps, 1e-12)):
+                            ctx.violation('cube:get_sed-apertures', 'the extracted SED does not carry the cube\'s apertures', dict(wit0, model=mi))
                         if with_unc and not O.close(np.asarray(s1.error.to(funit).value, float), unc[mi][:, idx], 1e-12):
                             ctx.violation('cube:get_sed-wrong-slice', 'extracted uncertainties differ', dict(wit0, model=mi))
                     except Exception as exc:
@@ -278,11 +324,56 @@ def run(ctx):
                 del r
                 os.remove(path)
 
+            # ---------------- cube object re-used with another spectral axis of the same length ----------------
+            if ic % 3 == 0:
+                c2 = SEDCube()
+                c2.names = np.array(['r%d' % i for i in range(n_m)])
+                c2.distance = 1.0 * u.kpc
+                for use in range(3):
+                    ax = wav_asc * (1 + 0.07 * use) if use != 1 else (wav_asc * 1.03)[::-1]
+                    c2.val = None
+                    c2.unc = None
+                    if use % 2 == 0:
+                        c2.nu = None
+                        c2.wav = ax * u.micron
+                    else:
+                        c2.wav = None
+                        c2.nu = (C_UM_HZ / ax) * u.Hz
+                    vv = encode(n_m, n_a, np.sort(ax), rng)
+                    order_ax = np.argsort(ax)
+                    if with_ap:
+                        c2.apertures = (aps * u.au).to(apu)
+                    v_in = np.empty_like(vv)
+                    v_in[:, :, order_ax] = vv
+                    c2.val = v_in * funit
+                    if with_unc:
+                        c2.unc = v_in * 0.03 * funit
+                    path2 = os.path.join(d, 'cubere_%d_%d.fits' % (ic, use))
+                    try:
+                        c2.write(path2)
+                        r = SEDCube.read(path2, order=order, memmap=False)
+                    except Exception as exc:
+                        ctx.violation('cube:roundtrip-raised:%s' % type(exc).__name__, 'cube write/read raised on a re-used object: %r' % (exc,), dict(wit0, kind='cube-reused', use=use))
+                        break
+                    ctx.event('roundtrip:cube-object-reused')
+                    got_w = np.asarray(r.wav.to(u.micron).value, float)
+                    got_nu = np.asarray(r.nu.to(u.Hz).value, float)
+                    idx = lookup(np.sort(ax), None, got_w)
+                    gv = np.asarray(r.val.to(funit).value, float)
+                    if idx is None or sorted(idx.tolist()) != list(range(n_w)) or np.any(np.abs(got_w * got_nu / C_UM_HZ - 1) > 1e-9) or \
+                            gv.shape != (n_m, n_a, n_w) or not O.close(gv, vv[:, :, idx], 1e-12):
+                        ctx.violation('cube:reused-object-stale-axis', 'a cube object whose spectral axis was re-assigned does not read back what was stored (stale wavelengths/frequencies)',
+                                      dict(wit0, kind='cube-reused', use=use, wav_in=ax, wav_got=got_w, nu_got=got_nu))
+                        break
+                    del r
+                    os.remove(path2)
+                ctx.case(('cubere', ic, ctx.shard), nontrivial=True)
+
             # ---------------- convolved fluxes ----------------
             cf = ConvolvedFluxes()
-            cf.central_wavelength = float(wav_asc[0]) * u.micron
+            cf.central_wavelength = (float(wav_asc[0]) * u.micron).to([u.micron, u.nm, u.mm, u.AA][int(rng.integers(4))])
             nm2 = max(n_m, 2)
-            cf.model_names = np.array(['cv_%02d' % i for i in range(nm2)])
+            cf.model_names = np.array(rng.permutation(['cv_%02d' % (i * 3) for i in range(nm2)]))      # not in lexical order
             if with_ap:
                 cf.apertures = (aps * u.au).to(apu)
             fl = encode(nm2, n_a, wav_asc[:1], rng)[:, :, 0]
